@@ -3,7 +3,7 @@
 # - scratch worktree of /repo HEAD under /tmp, demo on clean tree (must pass), apply patch, demo (must fail),
 #   full test suite with the patch, passed-id set compared with the clean-worktree baseline list.
 set -u
-SRC="$1"; TAG="$2"; WT="/tmp/sv-$TAG"; OUT="/tmp/sv-out/$TAG"; mkdir -p "$OUT"
+SRC="$(readlink -f "$1")"; TAG="$2"; WT="/tmp/sv-$TAG"; OUT="/tmp/sv-out/$TAG"; mkdir -p "$OUT"
 git -C /repo worktree add --detach "$WT" HEAD -q || exit 9
 cp "$SRC/demo.py" "$WT/demo_seeded.py"
 ( cd "$WT" && timeout 600 /venv/bin/python demo_seeded.py > "$OUT/demo_clean.log" 2>&1; echo "demo_clean_exit=$?" > "$OUT/result" )
